@@ -26,3 +26,6 @@ def run(ctx):
     ctx.exhaustive = True
     ctx.extra["programs_ctl"] = summ["vectors"]
     ctx.extra["programs_lookup"] = summ2["vectors"]
+    # stop ends the program also from inside an eexec section (plaintexts 12 and 13 of MC_Eexec)
+    from checks import c05
+    c05.eexec_layouts(ctx, ctx.tier == "quick", only=(12, 13), how_prefix="stop inside eexec: ")
